@@ -118,12 +118,39 @@ template <class Ring> static std::string prt(const Ring& F, const std::string& x
     for (size_t i = 0; i < Q.size(); ++i) r += " " + hexZ(conv(F, Q[i]));
     return r;
 }
+// the write half alone: the vector is stored exactly as given (no normalisation: trailing zero coefficients, all-zero
+// vectors, the empty vector) and written
+template <class Ring> static std::string pw(const Ring& F, const std::string& x, const std::vector<Integer>& cs) {
+    typedef Poly1Dom<Ring, Dense> PD;
+    PD D(F, Indeter(x));
+    typename PD::Element P;
+    P.resize(cs.size());
+    for (size_t i = 0; i < cs.size(); ++i) F.init(P[i], cs[i]);
+    std::ostringstream o;
+    D.write(o, P);
+    return enc(o.str());
+}
+// the library's own read on `input` (which may leave the vector un-normalised), then write of what was read
+template <class Ring> static std::string prw(const Ring& F, const std::string& x, const std::string& input) {
+    typedef Poly1Dom<Ring, Dense> PD;
+    PD D(F, Indeter(x));
+    typename PD::Element Q;
+    std::istringstream is(input);
+    D.read(is, Q);
+    std::string r = tail(is) + " " + vp::hex_ll((long long)Q.size());
+    for (size_t i = 0; i < Q.size(); ++i) r += " " + hexZ(conv(F, Q[i]));
+    std::ostringstream o;
+    D.write(o, Q);
+    return r + " " + enc(o.str());
+}
 template <class Ring, class F> static std::string with_ring(const Integer& p, F f) { Ring R(p); return f(R); }
 
 struct RingOps {
     std::function<std::string(const Integer& p, const Integer& rep, const std::string& rest)> ert;
     std::function<std::string(const Integer& p, const std::string& x, const std::vector<Integer>& cs)> prt;
     std::function<std::string(const Integer& p, const std::string& text)> eread;
+    std::function<std::string(const Integer& p, const std::string& x, const std::vector<Integer>& cs)> pw;
+    std::function<std::string(const Integer& p, const std::string& x, const std::string& input)> prw;
     std::function<Integer(const Integer& p, const Integer& v)> canon;    // representative of the image of v
     Integer minp, maxp;
 };
@@ -139,6 +166,8 @@ template <class Ring, class PT> static RingOps ops(bool hasmax = true) {
     o.ert = [](const Integer& p, const Integer& rep, const std::string& rest) { return ert(ring_for<Ring, PT>(p), rep, rest); };
     o.prt = [](const Integer& p, const std::string& x, const std::vector<Integer>& cs) { return prt(ring_for<Ring, PT>(p), x, cs); };
     o.eread = [](const Integer& p, const std::string& text) { return eread(ring_for<Ring, PT>(p), text); };
+    o.pw = [](const Integer& p, const std::string& x, const std::vector<Integer>& cs) { return pw(ring_for<Ring, PT>(p), x, cs); };
+    o.prw = [](const Integer& p, const std::string& x, const std::string& input) { return prw(ring_for<Ring, PT>(p), x, input); };
     o.canon = [](const Integer& p, const Integer& v) { const Ring& F = ring_for<Ring, PT>(p); typename Ring::Element e; F.init(e, v); return conv(F, e); };
     o.minp = Integer(Ring::minCardinality());
     o.maxp = hasmax ? Integer(Ring::maxCardinality()) : Integer(0);
@@ -197,6 +226,24 @@ template <size_t K> static std::string srt(const Integer& v, const std::string& 
     Integer back(b.Value);
     if (b.isNegative()) back -= two;
     return enc(o.str()) + " " + hexZ(back) + " " + tail(is);
+}
+template <size_t K> static std::string ustr(const Integer& v) {
+    RecInt::ruint<K> a(v);
+    std::ostringstream o;
+    o << a;
+    RecInt::ruint<K> b(o.str().c_str());
+    return enc(o.str()) + " " + hexZ(Integer(b));
+}
+template <size_t K> static std::string sstr(const Integer& v) {
+    Integer two(1); two <<= (uint64_t)(1u << K);
+    RecInt::rint<K> a;
+    a.Value = RecInt::ruint<K>(v < 0 ? v + two : v);
+    std::ostringstream o;
+    o << a;
+    RecInt::rint<K> b(o.str().c_str());
+    Integer back(b.Value);
+    if (b.isNegative()) back -= two;
+    return enc(o.str()) + " " + hexZ(back);
 }
 #define BYK(f, K, ...) ((K) == 6 ? f<6>(__VA_ARGS__) : (K) == 7 ? f<7>(__VA_ARGS__) : (K) == 8 ? f<8>(__VA_ARGS__) : (K) == 9 ? f<9>(__VA_ARGS__) \
                         : (K) == 10 ? f<10>(__VA_ARGS__) : (K) == 11 ? f<11>(__VA_ARGS__) : f<12>(__VA_ARGS__))
@@ -293,6 +340,17 @@ static const std::map<std::string, Fn> TABLE = {
     {"eread", [](const Args& a) { return RINGS().at(a.s(0)).eread(Zof(a.s(1)), dec(a.s(2))); }},
     // ZRing<Integer> element: zrt <n> <rest>
     {"zrt", [](const Args& a) { ZRing<Integer> Z; return ert(Z, Zof(a.s(0)), dec(a.s(1))); }},
+    // polynomial, write half: pw <ring> <p> <indeterminate> c0 c1 ...   (vector stored as given)
+    {"pw", [](const Args& a) {
+         std::vector<Integer> cs;
+         for (size_t i = 3; i < a.n(); ++i) cs.push_back(Zof(a.s(i)));
+         return RINGS().at(a.s(0)).pw(Zof(a.s(1)), dec(a.s(2)), cs);
+     }},
+    // polynomial: the library's read on <input>, then write: prw <ring> <p> <indeterminate> <input>
+    {"prw", [](const Args& a) { return RINGS().at(a.s(0)).prw(Zof(a.s(1)), dec(a.s(2)), dec(a.s(3))); }},
+    // RecInt string constructors on the printed form: ustr <K> <v>, sstr <K> <v>
+    {"ustr", [](const Args& a) { int K = (int)a.W(0); return BYK(ustr, K, Zof(a.s(1))); }},
+    {"sstr", [](const Args& a) { int K = (int)a.W(0); return BYK(sstr, K, Zof(a.s(1))); }},
     // polynomial: prt <ring> <p> <indeterminate> c0 c1 ...
     {"prt", [](const Args& a) {
          std::vector<Integer> cs;
@@ -498,6 +556,52 @@ struct Gen {
                         add(std::string("eread ") + name + " " + vp::hex_ll(p) + " " + enc(t));
                     }
         }
+        // ---- RecInt string constructors on the printed form (signed: both signs, the extremes)
+        for (int K = 6; K <= 12; ++K) {
+            unsigned bits = 1u << K;
+            std::vector<Integer> ug = {Integer(0), Integer(1), Integer(9), Integer(10), Integer(12345), pow2(63) - 1, pow2(63), pow2(bits - 1) - 1, pow2(bits / 2), pow10(19)};
+            if (K > 6) { ug.push_back(pow2(64)); ug.push_back(pow2(64) + 1); ug.push_back(pow2(bits - 64) + 7); }
+            for (int i = 0; i < (thorough ? 12 : 2) / (K >= 11 ? 2 : 1); ++i) ug.push_back(randbits(1 + (unsigned)rng.below(bits - 1)));
+            for (auto& v : ug) {
+                if (v >= pow2(bits - 1)) { if (v < pow2(bits)) add("ustr " + vp::hex_ll(K) + " " + hx(v)); continue; }
+                add("ustr " + vp::hex_ll(K) + " " + hx(v));
+                add("sstr " + vp::hex_ll(K) + " " + hx(v));
+                if (v != 0) add("sstr " + vp::hex_ll(K) + " " + hx(-v));
+            }
+            add("ustr " + vp::hex_ll(K) + " " + hx(pow2(bits) - 1));
+            add("sstr " + vp::hex_ll(K) + " " + hx(-pow2(bits - 1)));
+        }
+        // ---- polynomials, write half: vectors stored un-normalised (1..3 trailing zero coefficients), all-zero vectors of
+        //      size 1..3, the empty vector; and the library's own read of un-normalised input followed by write
+        for (const char* name : {"mi32", "md", "gfq", "mI", "bi32"})
+            for (long p : {3L, 101L, 65521L})
+                for (const char* x : {"X", "x", "Y1", "t"}) {
+                    std::vector<std::vector<long>> base = {{}, {1}, {2}, {0, 1}, {1, 1}, {7}, {0, 0, 1}, {2, 0, 1}, {1, 2, 0, 1}, {0, 1, 0, 2}, {100, 1}, {1, 0, 0, 0, 0, 5}};
+                    for (int i = 0; i < (thorough ? 6 : 1); ++i) {
+                        std::vector<long> c;
+                        size_t d = 1 + rng.below(6);
+                        for (size_t j = 0; j < d; ++j) c.push_back((long)rng.below(3) == 0 ? 0 : (long)rng.below((uint64_t)p));
+                        base.push_back(c);
+                    }
+                    bool balanced = name[0] == 'b';
+                    for (auto& c : base)
+                        for (int z = 0; z <= 3; ++z) {
+                            if (!(thorough || z < 2 || c.size() < 3 || rng.below(2) == 0)) continue;
+                            std::string l = std::string("pw ") + name + " " + vp::hex_ll(p) + " " + enc(x);
+                            for (long v : c) { long r = v % p; if (balanced && r > p / 2) r -= p; l += " " + vp::hex_ll(r); }
+                            for (int j = 0; j < z; ++j) l += " 0";
+                            add(l);
+                        }
+                    // inputs of Poly1Dom::read: "deg c_deg ... c_0"; leading coefficients that are zero modulo p
+                    std::vector<std::string> ins = {"2 " + std::to_string(p) + " 1 1", "2 0 1 1", "2 0 0 0", "0 0", "1 0 0", "1 0 5", "3 0 0 1 2", "0 7", "2 1 0 0",
+                                                    "3 " + std::to_string(2 * p) + " " + std::to_string(p) + " 2 1", "1 " + std::to_string(p) + " " + std::to_string(p + 1),
+                                                    "2 1 2", "1 1 x", "x"};
+                    for (auto& in : ins) {
+                        // native element readers leave `Element tmp` uninitialised at the end of the stream: complete inputs only
+                        if (balanced || (std::string(name) == "gfq" && in == "2 1 2")) continue;
+                        add(std::string("prw ") + name + " " + vp::hex_ll(p) + " " + enc(x) + " " + enc(in));
+                    }
+                }
         // ---- polynomials: domains x indeterminate names x coefficient patterns
         for (const char* name : {"mi32", "md", "gfq", "mI"})
             for (long p : {2L, 3L, 101L, 65521L})
